@@ -7,7 +7,8 @@ props = [json.loads(l) for l in open(os.path.join(ROOT, "properties.jsonl"))]
 TIE = ("Tie to /repo, re-established on every run, in two ways. (a) Translator: tools/srcfacts re-translates the current text of src/portable.rs "
        "(all of it: new, update, permute, zipper merge, modular reduction, remainder, data_to_lanes, update_remainder, finalize64/128/256, append, "
        "checkpoint, from_checkpoint), HashPacket and unordered_load3 of src/internal.rs, the WHOLE of src/wasm.rs (all 47 functions incl. finalize, append, "
-       "remainder, checkpoint, from_checkpoint; only the 20 wasm32 instructions get their meaning from a table), and the SIMD kernels + vector wrapper types of the other SIMD backends into "
+       "remainder, checkpoint, from_checkpoint; only the 20 wasm32 instructions get their meaning from a table), the WHOLE of src/aarch64.rs likewise (42 functions, raw-pointer "
+       "loads read as checked loads from the byte array; only the 26 NEON instructions from a table), and the SIMD kernels + vector wrapper types of the SSE / AVX backends into "
        "deep-embedded abstract syntax (gen/Src*.v); theorems SRC_* (Properties/SourceKernel*.v) prove that the Coq interpreters of that syntax "
        "compute exactly the hand-written model, function by function, for all states, arguments, slices and build profiles. (b) Correspondence: "
        "the extracted model (OCaml, ExtrOcamlBasic only) and the real crate, rebuilt from the working tree with hooks on, execute the same "
@@ -43,7 +44,9 @@ T = {
  "C15": ("proof", "Theorems C15_frame / C15_outputs_local (register isolation in the model) plus regenerated source facts (no global state). " + TIE +
          " Real thread schedules are sampled (16 threads) - partial.", "6 C15"),
  "C03": ("proof", "Theorems C03_neon_equals_portable / C03_checkpoints_interchangeable on the NEON model (full refinement proof). Tie: the real src/aarch64.rs "
-         "executed under Miri (aarch64-unknown-linux-gnu) against the extracted model.", "6 C03"),
+         "executed under Miri (aarch64-unknown-linux-gnu) against the extracted model; and the translator: every function of the current src/aarch64.rs, re-translated on "
+         "each run, is proved equal to the model (SRCN_*), and the interpreted aarch64.rs is proved to compute HighwayHash, to agree with the interpreted portable.rs, and to "
+         "write / restore the same 164 checkpoint bytes (SRCN_source_*).", "6 C03"),
  "C04": ("proof", "Theorems C04_wasm_equals_portable / C04_checkpoints_interchangeable on the Wasm model (full refinement proof, mirrored lane order). Tie: the real "
          "src/wasm.rs executed under Miri (wasm32-unknown-unknown +simd128, no_std) against the extracted model; and the translator: every function of the current "
          "src/wasm.rs, re-translated on each run, is proved equal to the model (SRCW_*), and the interpreted wasm.rs is proved to compute HighwayHash, to agree with "
